@@ -204,7 +204,16 @@ fn h(v: &Value) -> u64 {
     s.finish()
 }
 
+static QUIET: std::sync::atomic::AtomicBool = std::sync::atomic::AtomicBool::new(false);
+
 fn exec(op: &str) -> String {
+    QUIET.store(true, std::sync::atomic::Ordering::SeqCst);
+    let r = exec_inner(op);
+    QUIET.store(false, std::sync::atomic::Ordering::SeqCst);
+    r
+}
+
+fn exec_inner(op: &str) -> String {
     let parts: Vec<&str> = op.split_whitespace().collect();
     if parts.is_empty() {
         return "bad-op".into();
@@ -737,13 +746,35 @@ fn shard_of(seed: u64) -> u64 {
     seed % 1000
 }
 
+/// No `Float64`, no `Data` anywhere inside (the fragment `F` of the theorems).
+fn in_f(v: &Value) -> bool {
+    match v {
+        Value::Float64Value(_) | Value::Data(_) => false,
+        Value::Record(attrs, items) => {
+            attrs.iter().all(|a| in_f(&a.value))
+                && items.iter().all(|i| match i {
+                    Item::ValueItem(v) => in_f(v),
+                    Item::Slot(k, v) => in_f(k) && in_f(v),
+                })
+        }
+        _ => true,
+    }
+}
+
 fn main() {
+    // `catch_unwind` reports panics as the output `panic`; keep stderr quiet
+    let default_hook = std::panic::take_hook();
+    std::panic::set_hook(Box::new(move |info| {
+        if !QUIET.load(std::sync::atomic::Ordering::SeqCst) {
+            default_hook(info);
+        }
+    }));
     match parse_args() {
         Mode::Gen { seed, cases, out } => {
             let mut t = Trace::create(&out);
             let extra: Vec<String> = std::env::args().skip(5).collect();
             let kind = extra.first().map(|s| s.as_str()).unwrap_or("random");
-            let nshards: u64 = extra.get(1).map(|s| s.parse().unwrap()).unwrap_or(1);
+            let nshards: u64 = extra.get(1).and_then(|s| s.parse().ok()).unwrap_or(1);
             let me = shard_of(seed);
             match kind {
                 // every value, every ordered pair of the full pool
@@ -784,6 +815,40 @@ fn main() {
                     for c in 0..cases {
                         let (a, b, d) = (rng.pick(&p).clone(), rng.pick(&p).clone(), rng.pick(&p).clone());
                         cases_triple(&mut t, &format!("r{} seed={}", c, seed), &a, &b, &d);
+                    }
+                }
+                // what `drop_or_take` does: `sort_by(Value::cmp)` on lists of keys. `sort F`: values of the fragment F
+                // only (the stable sorted order is unique: compared with the model); `sort any`: everything,
+                // including chains of floats closer than EPSILON (monitor only: a panic is a violation)
+                "sort" => {
+                    let only_f = extra.get(1).map(|s| s == "F").unwrap_or(false);
+                    let mut rng = Rng::new(seed);
+                    let p: Vec<Value> = pool(2).into_iter().filter(|v| !only_f || in_f(v)).collect();
+                    for c in 0..cases {
+                        let n = if rng.chance(2, 3) { rng.range(2, 12) } else { rng.range(21, 70) } as usize;
+                        let mut vs: Vec<Value> = vec![];
+                        let style = rng.below(4);
+                        let base = gen_float(&mut rng);
+                        let step = (rng.range(1, 6) as f64) * (f64::EPSILON / 4.0);
+                        while vs.len() < n {
+                            let v = if !only_f && style == 0 {
+                                // a ladder of floats a fraction of EPSILON apart
+                                Value::Float64Value(base + (rng.below(n as u64) as f64) * step)
+                            } else if style == 1 && !vs.is_empty() && rng.chance(2, 3) {
+                                let i = rng.below(vs.len() as u64) as usize;
+                                mutate(&mut rng, &vs[i].clone(), 2)
+                            } else if rng.chance(1, 2) {
+                                rng.pick(&p).clone()
+                            } else {
+                                gen_value(&mut rng, 2)
+                            };
+                            if !only_f || in_f(&v) {
+                                vs.push(v);
+                            }
+                        }
+                        t.case(format!("sort{} seed={}", c, seed));
+                        let op = format!("sort {}", vs.iter().map(es).collect::<Vec<_>>().join(" "));
+                        run_case(&mut t, &[op]);
                     }
                 }
                 "poolsize" => {
